@@ -35,15 +35,18 @@ FINDINGS_FILE = os.path.join(VERIF, "known_findings.txt")
 # the evidence of /repo
 _REPO = os.environ.get("XITORCH_REPO", "/repo")
 OUT = os.environ.get("VERIF_OUT") or (VERIF if os.path.realpath(_REPO) == "/repo" else "/var/tmp/xv-out")
-CASE_TIMEOUT_S = int(os.environ.get("VERIF_CASE_TIMEOUT", "600"))
+# per-case alarm: generous (the longest case, a breadth-first protocol search of C10 in the thorough tier, takes
+# ~6 minutes on an idle core and several times that on a loaded machine); a case that hits it is a harness error
+CASE_TIMEOUT_S = int(os.environ.get("VERIF_CASE_TIMEOUT", "900"))       # thorough tier: 3600 (set in run_property)
 
 
 def jhash(obj) -> str:
     return hashlib.sha1(json.dumps(obj, sort_keys=True, default=str).encode()).hexdigest()[:16]
 
 
-class CaseTimeout(Exception):
-    pass
+class CaseTimeout(BaseException):
+    """raised by the per-case alarm.  Not an Exception: neither the library nor a harness `call()` may swallow it
+    and report it as a behaviour of the library"""
 
 
 def _alarm(signum, frame):
@@ -146,6 +149,9 @@ def run_property(modname, tier, seed, replay=None, workers=None):
     if replay is not None:
         return _replay(mod, modname, replay)
 
+    global CASE_TIMEOUT_S
+    if "VERIF_CASE_TIMEOUT" not in os.environ:
+        CASE_TIMEOUT_S = 900 if tier == "quick" else 3600      # inherited by the forked workers
     case_list = list(mod.cases(tier, seed))
     hd = getattr(mod, "HISTORY", None)
     if hd:
